@@ -98,6 +98,7 @@ struct Nested {
     via: IpcSender<Inner>,
     payload: IpcSender<u8>,
     inner_fails: bool,
+    os_refuses: bool, // the nested send serialises fine but its transmission is refused (ENOBUFS on a small packet)
 }
 struct Inner {
     s: IpcSender<u8>,
@@ -122,7 +123,7 @@ impl<'de> Deserialize<'de> for Inner {
 impl Serialize for Nested {
     fn serialize<S: Serializer>(&self, s: S) -> Result<S::Ok, S::Error> {
         let r = self.via.send(Inner { s: self.payload.clone(), fail: self.inner_fails });
-        assert!(r.is_err() == self.inner_fails);
+        assert!(r.is_err() == (self.inner_fails || self.os_refuses));
         core::mem::forget(r);
         0x77u8.serialize(s)
     }
@@ -133,18 +134,21 @@ impl<'de> Deserialize<'de> for Nested {
     }
 }
 
-fn ser_nested(inner_fails: bool) {
+fn ser_nested(inner_fails: bool, os_refuses: bool) {
     start();
     let (tx, rx) = ipc::channel::<(IpcSender<u8>, Nested, IpcSender<u8>)>().unwrap();
     let (via_tx, via_rx) = ipc::channel::<Inner>().unwrap();
     let (a_tx, a_rx) = ipc::channel::<u8>().unwrap();
     let (b_tx, b_rx) = ipc::channel::<u8>().unwrap();
     let (c_tx, c_rx) = ipc::channel::<u8>().unwrap();
-    env::set_enobufs_mask(0);
-    tx.send((a_tx.clone(), Nested { via: via_tx.clone(), payload: c_tx.clone(), inner_fails }, b_tx.clone())).unwrap();
+    env::set_enobufs_mask(if os_refuses { 1 } else { 0 });
+    tx.send((a_tx.clone(), Nested { via: via_tx.clone(), payload: c_tx.clone(), inner_fails, os_refuses }, b_tx.clone())).unwrap();
     let n = env::att_count();
     assert!(n == if inner_fails { 1 } else { 2 }, "number of transmissions");
-    if !inner_fails {
+    if os_refuses {
+        assert!(!env::att(0).ok, "the nested transmission was refused");
+    }
+    if !inner_fails && !os_refuses {
         let i = env::att(0);
         let i_pay = env::att_pay(0);
         assert!(i.ok && i.nfds == 1 && i.fds[0] == fd_of(&c_tx), "C14: the nested message does not carry exactly its own attachment");
@@ -163,18 +167,21 @@ fn ser_nested(inner_fails: bool) {
 
 /// the same with shared-memory regions around the nested send (the region side table is saved and
 /// restored separately from the channel one)
-fn ser_nested_regions(inner_fails: bool) {
+fn ser_nested_regions(inner_fails: bool, os_refuses: bool) {
     start();
     let (tx, rx) = ipc::channel::<(IpcSharedMemory, Nested, IpcSharedMemory)>().unwrap();
     let (via_tx, via_rx) = ipc::channel::<Inner>().unwrap();
     let (c_tx, c_rx) = ipc::channel::<u8>().unwrap();
     let ra = IpcSharedMemory::from_bytes(&[1u8]);
     let rb = IpcSharedMemory::from_bytes(&[2u8, 2]);
-    env::set_enobufs_mask(0);
-    tx.send((ra.clone(), Nested { via: via_tx.clone(), payload: c_tx.clone(), inner_fails }, rb.clone())).unwrap();
+    env::set_enobufs_mask(if os_refuses { 1 } else { 0 });
+    tx.send((ra.clone(), Nested { via: via_tx.clone(), payload: c_tx.clone(), inner_fails, os_refuses }, rb.clone())).unwrap();
     let n = env::att_count();
     assert!(n == if inner_fails { 1 } else { 2 }, "number of transmissions");
-    if !inner_fails {
+    if os_refuses {
+        assert!(!env::att(0).ok, "the nested transmission was refused");
+    }
+    if !inner_fails && !os_refuses {
         let i = env::att(0);
         assert!(i.ok && i.nfds == 1 && i.fds[0] == fd_of(&c_tx), "C14: the nested message does not carry exactly its own attachment");
     }
@@ -213,14 +220,45 @@ fn ser_mixed() {
     crate::reach_end!();
 }
 
+/// C03/C04/C09 (serialising side): RECEIVING ends embedded in a value (typed, and opaque ones made with
+/// `to_opaque`) travel as descriptors in value order next to a sender, and are MOVED: once `send` has
+/// returned, this process holds no copy of them, while the caller's sender handle is untouched.
+fn ser_receivers() {
+    use ipc_channel::ipc::{IpcReceiver, OpaqueIpcReceiver, OpaqueIpcSender};
+    start();
+    let (tx, rx) = ipc::channel::<(IpcReceiver<u8>, OpaqueIpcSender, OpaqueIpcReceiver)>().unwrap();
+    let (a_tx, a_rx) = ipc::channel::<u8>().unwrap();
+    let (b_tx, b_rx) = ipc::channel::<u8>().unwrap();
+    let (c_tx, c_rx) = ipc::channel::<u8>().unwrap();
+    let a_fd = ph::receiver_fd(ipc::verif_hooks::receiver_os(&a_rx));
+    let c_fd = ph::receiver_fd(ipc::verif_hooks::receiver_os(&c_rx));
+    env::set_enobufs_mask(0);
+    tx.send((a_rx, b_tx.clone().to_opaque(), c_rx.to_opaque())).unwrap();
+    assert!(env::att_count() == 1, "number of transmissions");
+    let o = env::att(0);
+    let pay = env::att_pay(0);
+    assert!(o.ok && o.nfds == 3, "C04: the message does not carry exactly its three endpoints");
+    assert!(o.fds[0] == a_fd && o.fds[1] == fd_of(&b_tx) && o.fds[2] == c_fd, "C04: endpoints not in value order");
+    assert!(o.len == 24 && le64(&pay, 0) == 0 && le64(&pay, 8) == 1 && le64(&pay, 16) == 2, "C04: endpoint indices do not count endpoints in value order");
+    assert!(!env::is_open(a_fd) && !env::is_open(c_fd), "C03/C09: the local copy of a receiving end is still open after it was sent");
+    assert!(env::is_open(fd_of(&b_tx)), "C03: the caller's own sender handle was closed by sending an opaque clone of it");
+    assert!(ipc::verif_hooks::serialization_tables_len() == (0, 0), "C14: side tables not empty after the send");
+    drop((tx, rx, a_tx, b_tx, b_rx, c_tx));
+    assert!(env::nopen() == 0 && env::nmapped() == 0 && !env::bad_close(), "C11: descriptors or mappings left after everything was dropped");
+    crate::reach_end!();
+}
+
 harnesses! {
+    #[unwind(8)] fn ser_receivers_move() { ser_receivers() }
     #[unwind(8)] fn ser_mixed_indices() { ser_mixed() }
-    #[unwind(8)] fn ser_nested_regions_ok() { ser_nested_regions(false) }
-    #[unwind(8)] fn ser_nested_regions_inner_fails() { ser_nested_regions(true) }
+    #[unwind(8)] fn ser_nested_regions_ok() { ser_nested_regions(false, false) }
+    #[unwind(8)] fn ser_nested_regions_inner_fails() { ser_nested_regions(true, false) }
+    #[unwind(8)] fn ser_nested_regions_inner_refused() { ser_nested_regions(false, true) }
+    #[unwind(8)] fn ser_nested_inner_refused() { ser_nested(false, true) }
     #[unwind(8)] fn ser_fail_visit0() { ser_fail(0) }
     #[unwind(8)] fn ser_fail_visit1() { ser_fail(1) }
     #[unwind(8)] fn ser_fail_visit2() { ser_fail(2) }
     #[unwind(8)] fn ser_fail_visit3() { ser_fail(3) }
-    #[unwind(8)] fn ser_nested_ok() { ser_nested(false) }
-    #[unwind(8)] fn ser_nested_inner_fails() { ser_nested(true) }
+    #[unwind(8)] fn ser_nested_ok() { ser_nested(false, false) }
+    #[unwind(8)] fn ser_nested_inner_fails() { ser_nested(true, false) }
 }
